@@ -91,7 +91,7 @@ fn c06_grid() -> Vec<History> {
             for entry in 0..9u8 {
                 let mut ops = prefix.clone();
                 let chars: Vec<String> = vec!["aé€𝄞".repeat((n % 11).min(10))];
-                let it = |kind| IterSpec { kind, items: chars.clone(), slots: vec![], hint: Some(n), panic_at: None, loose: None };
+                let it = |kind| IterSpec { kind, items: chars.clone(), slots: vec![], hint: Some(n), panic_at: None, loose: None, fx: None };
                 ops.push(match entry {
                     0 => Op::WithCapacity { slot: 3, n: Size::Abs(n), try_: true },
                     1 => Op::WithCapacity { slot: 3, n: Size::Abs(n), try_: false },
@@ -327,7 +327,7 @@ fn c10_list() -> Vec<History> {
                 Op::PushStr { slot: 0, text: Text::Lit("0123456789abcdefXYZ".into()), try_: true },
                 Op::Insert { slot: 0, idx: Idx::Raw(0), ch: 'é', try_: false },
                 Op::Reserve { slot: 0, n: Size::Abs(3), try_: false },
-                Op::Retain { slot: 0, r: RetainSpec { mask: 0x5555_5555_5555_5555, panic_at: None }, try_: false },
+                Op::Retain { slot: 0, r: RetainSpec { mask: 0x5555_5555_5555_5555, panic_at: None, fx: None }, try_: false },
                 Op::Remove { slot: 0, idx: Idx::Raw(0), try_: true },
             ] {
                 let ops = vec![
@@ -618,7 +618,7 @@ fn recipe(r: u8, text: &str, t: Slot, scratch: Slot, static_k: Option<u16>) -> V
             Op::FromText { slot: t, via: Via::Str, text: format!("€{text}") },
             Op::Remove { slot: t, idx: Idx::Raw(0), try_: false },
         ],
-        11 => vec![Op::Collect { slot: t, it: IterSpec { kind: IterKind::Char, items: vec![tx], slots: vec![], hint: None, panic_at: None, loose: None } }],
+        11 => vec![Op::Collect { slot: t, it: IterSpec { kind: IterKind::Char, items: vec![tx], slots: vec![], hint: None, panic_at: None, loose: None, fx: None } }],
         _ => vec![Op::FromText { slot: t, via: Via::Str, text: tx }],
     }
 }
